@@ -259,8 +259,35 @@ def t_sketchy_update(ctx, it):
                nw.tail.item() == b * old.tail.item() + c_ * c_, detail=f"axis {a}")
 
 
+def t_sketchy_off_cadence_ekfac(ctx, it):
+  """Tearfree Sketchy with ekfac_svd=True (where _update_sketches runs on EVERY step, with update_sketches=False off the
+  cadence): on a step with count % update_freq != 0 the sketch state (V, l, t) of every axis is unchanged (seed C09-g)."""
+  sk_ = it.load_module(SK)
+  f = spec.fresh_int("update_freq", lo=2)
+  b = spec.fresh_real("second_moment_decay")
+  ctx.assume(sym.sand(b > 0, b <= 1))
+  opts = sk_.Options(rank=2, update_freq=f, second_moment_decay=b, ekfac_svd=True)
+  shape = (4, 3)
+  st0 = sk_._init(opts, T.opaque("p", shape))
+  count = spec.fresh_int("count", lo=0)
+  ctx.assume(count % f != 0)
+  axes = []
+  for a, ax in enumerate(st0.sketches.axes):
+    axes.append(sk_._AxisState(T.opaque(f"V{a}", ax.eigvecs.shape), T.opaque(f"e{a}", ax.eigvals.shape),
+                               T.opaque(f"ie{a}", ax.inv_eigvals.shape), T.asarray(spec.fresh_real(f"tail{a}", lo=0)), T.opaque(f"it{a}", ()),
+                               ax.ema_ggt, T.opaque(f"su{a}", ax.svd_result_u.shape), T.opaque(f"ss{a}", ax.svd_result_s.shape),
+                               T.asarray(spec.fresh_real(f"ipt{a}", lo=0))))
+  st = sk_._SketchyState(count=T.asarray(count), sketches=sk_._TensorState(axes))
+  upd, new = sk_._update(opts, T.opaque("g", shape), st)
+  for a, (old, nw) in enumerate(zip(axes, new.sketches.axes)):
+    ctx.oblige("sketchy._update.post (ekfac_svd, off the cadence): escaped mass t unchanged", nw.tail.item() == old.tail.item(), detail=f"axis {a}")
+    x = T.skolem_index(old.eigvals.shape) if hasattr(T, "skolem_index") else tuple(0 for _ in old.eigvals.shape)
+    ctx.oblige("sketchy._update.post (ekfac_svd, off the cadence): eigenvalues l unchanged", nw.eigvals.at(x) == old.eigvals.at(x), detail=f"axis {a}")
+
+
 def tasks(tier):
-  ts = [Task("DS _fd_update_root", t_ds), Task("sketchy._update on a statistics step", t_sketchy_update)]
+  ts = [Task("DS _fd_update_root", t_ds), Task("sketchy._update on a statistics step", t_sketchy_update),
+        Task("sketchy._update off the cadence with ekfac_svd", t_sketchy_off_cadence_ekfac)]
   for rank_, axis_ in ((1, 0), (2, 0), (2, 1), (3, 1)):
     ts.append(Task(f"DS frequent_directions_update[rank={rank_},axis={axis_}]", mk_fd_factor(rank_, axis_)))
   for rank in (1, 2, 3):
